@@ -131,6 +131,9 @@ def decision_rules(fb, ctx):
     h = fb.hir_of(b)
     t = strip(hirq.tail(h["body"]))
     where = f"{b['file']}:{t.get('ln', b['line']) if isinstance(t, dict) else b['line']}"
+    if decision_by_evaluation(ctx, h, t, where):
+        policy_loop_rules(fb, ctx, b, h, where)
+        return
     if not (isinstance(t, dict) and t.get("k") == "match" and strip(t["scrut"]).get("k") == "tup"):
         ctx.fail("DECISION", "final decision table", "DECISION|shape", "authorize_inner does not end in `match (policy_result, errors.is_empty())`", where)
         return
@@ -170,6 +173,58 @@ def decision_rules(fb, ctx):
     # failed checks are reported in full
     errs = [s for s in find_all(t, lambda z: z.get("k") == "struct" and re.search(r"Logic::(NoMatchingPolicy|Unauthorized)$", hirq.res_path(z["res"])))]
     ctx.check(len(errs) == 3 and all(any(f["name"] == "checks" and is_local(strip(f["e"])) for f in s["fields"]) for s in errs), "DECISION", "every refusal carries the list of failed checks", "DECISION|checks", "a refusal does not report `errors`", where)
+    policy_loop_rules(fb, ctx, b, h, where)
+
+
+def decision_by_evaluation(ctx, h, t, where):
+    """EVAL: the final expression of authorize_inner, interpreted at the six points of (first matching policy in {None, Some(Ok(i)),
+    Some(Err(i))}) x (list of failed checks empty or not), must give the specification's decision and carry the failed checks.
+    Returns False (nothing reported) when the expression is outside what the interpreter understands."""
+    import absint
+    fl = absint.free_locals(t)
+    if len(fl) != 2:
+        return False
+    # which free local is the list of failed checks: the one `is_empty()` is asked of
+    errs_id = None
+    for z in find_all(t, lambda z: z.get("k") == "mcall" and z.get("name") == "is_empty"):
+        r = strip(z["recv"])
+        if r.get("k") == "path" and (r.get("res") or {}).get("dk") == "Local" and r["res"]["id"] in fl:
+            errs_id = r["res"]["id"]
+    if errs_id is None:
+        return False
+    pol_id = [i for i in fl if i != errs_id][0]
+    results = {}
+    try:
+        for pname, pval in (("None", absint.C("None")), ("Some/Ok", absint.C("Some", absint.C("Ok", absint.sym("i")))), ("Some/Err", absint.C("Some", absint.C("Err", absint.sym("i"))))):
+            for empty in (True, False):
+                it = absint.Interp(hooks={"is_empty": lambda interp, recv, args, e_=empty: e_ if recv == absint.sym("errors") else NotImplemented})
+                results[(pname, str(empty))] = it.run(t, {pol_id: pval, errs_id: absint.sym("errors")})
+    except absint.Unknown:
+        return False
+    def kind(v):
+        if absint.tag(v) == "Ok":
+            return "Ok" if v[2] and v[2][0] == absint.sym("i") else "Ok(?)"
+        if absint.tag(v) == "Err":
+            for nm in ("NoMatchingPolicy", "Unauthorized"):
+                st = absint.find_ctor(v, nm)
+                if st is not None:
+                    pol = ""
+                    if nm == "Unauthorized":
+                        p_ = st[2].get("policy") if st[0] == "S" else None
+                        pol = "+" + (absint.tag(p_) or "?") + ("(i)" if p_ and p_[2] and p_[2][0] == absint.sym("i") else "(?)")
+                    carries = st[0] == "S" and st[2].get("checks") == absint.sym("errors")
+                    return nm + pol + ("" if carries else " WITHOUT the failed checks")
+        return absint.show(v)
+    want = {("None", "True"): "NoMatchingPolicy", ("None", "False"): "NoMatchingPolicy", ("Some/Ok", "True"): "Ok", ("Some/Ok", "False"): "Unauthorized+Allow(i)", ("Some/Err", "True"): "Unauthorized+Deny(i)", ("Some/Err", "False"): "Unauthorized+Deny(i)"}
+    for c, w in want.items():
+        got = kind(results[c])
+        ctx.check(got == w, "DECISION", f"(policy={c[0]}, no failed checks={c[1]}) -> {w}", f"DECISION|{c[0]}|{c[1]}", f"the final expression of authorize_inner evaluates to {got}, the semantics requires {w}", where)
+    ctx.ok("DECISION", "decision on (first matching policy, no failed check)", where, "abstract evaluation of the final expression over its 6-point domain")
+    ctx.ok("DECISION", "every refusal carries the list of failed checks", where, "checked in each refusing cell")
+    return True
+
+
+def policy_loop_rules(fb, ctx, b, h, where):
     # policies: declaration order, first match wins
     # `for (i, policy) in self.policies.iter().enumerate()` desugars to match <iterator expr> { mut iter => loop {..} }
     fd = [m for m in find_all(h["body"], lambda n: n.get("k") == "match" and n.get("src") == "ForLoopDesugar") if find_all(m["scrut"], lambda z: z.get("k") == "field" and z.get("name") == "policies")]
@@ -185,7 +240,29 @@ def decision_rules(fb, ctx):
             val = estr(asg[0]["rhs"]) if asg else "?"
             tab[(v or "").split("::")[-1]] = re.sub(r"\w+::", "", val)
     idx = None
-    ctx.check(re.fullmatch(r"Some\(Ok\((\w+)\)\)", tab.get("Allow", "")) is not None and re.fullmatch(r"Some\(Err\((\w+)\)\)", tab.get("Deny", "")) is not None, "POLICY", "matching allow -> Some(Ok(i)), matching deny -> Some(Err(i))", "POLICY|kind", f"found {tab}", f"{b['file']}:{km['ln']}")
+    kind_ok = re.fullmatch(r"Some\(Ok\((\w+)\)\)", tab.get("Allow", "")) is not None and re.fullmatch(r"Some\(Err\((\w+)\)\)", tab.get("Deny", "")) is not None
+    if not kind_ok:
+        # other shapes (`policy_result = Some(match policy.kind { Allow => Ok(i), Deny => Err(i) })`): evaluate the smallest statement
+        # around the match on the policy kind for both kinds and read what is assigned
+        import absint
+        holder = [z for z in find_all(pl, lambda z: z.get("k") in ("assign", "semi", "match") and find_all(z, lambda y: y is km) and find_all(z, lambda y: y.get("k") == "assign"))]
+        holder.sort(key=lambda z: len(str(z)))
+        if holder:
+            st_ = holder[0]
+            got_ = {}
+            try:
+                for kind_ in ("Allow", "Deny"):
+                    it = absint.Interp()
+                    env_ = {i_: absint.sym(nm_ or "v") for i_, nm_ in absint.free_locals(st_).items()}
+                    it.fields = {(v_[1], "kind"): absint.C(kind_) for v_ in env_.values()}
+                    it.run(st_ if st_.get("k") != "semi" else st_["e"], env_)
+                    got_[kind_] = [absint.show(v_) for v_ in it.assigned.values()]
+                idxs = [nm_ for nm_ in absint.free_locals(st_).values()]
+                kind_ok = any(got_["Allow"] == [f"Some(Ok(<{n_}>))"] and got_["Deny"] == [f"Some(Err(<{n_}>))"] for n_ in idxs)
+                tab = got_
+            except absint.Unknown:
+                pass
+    ctx.check(kind_ok, "POLICY", "matching allow -> Some(Ok(i)), matching deny -> Some(Err(i))", "POLICY|kind", f"found {tab}", f"{b['file']}:{km['ln']}")
     brk = [x for x in find_all(pl, lambda z: z.get("k") == "break" and z.get("label"))]
     conts = [x for x in find_all(pl, lambda z: z.get("k") == "continue")]
     guard = [i for i in find_all(pl, lambda z: z.get("k") == "if") if is_local(strip(i["cond"])) and find_all(i["then"], lambda z: z is km) and any(find_all(i["then"], lambda z: z is bx) for bx in brk)]
@@ -248,6 +325,32 @@ def query_scope_rules(fb, ctx):
 
 
 # ------------------------------------------------------------------------------------------------ trust (C03)
+def added_items(node):
+    """elements a statement adds to a set: `x.insert(a)` -> [a]; `x.extend([a, b])` / `X::from_iter([a, b])` -> [a, b]; `x.extend(r)`
+    -> [r] (ranges normalised: `0..n + 1` and `0..=n` both read `0..=n`)"""
+    out = []
+    def norm(e):
+        t = re.sub(r"\s", "", estr(e))
+        m = re.fullmatch(r"Range\{start:(\w+),end:\((\w+)Add1\)\}", t)
+        if m:
+            return f"{m.group(1)}..={m.group(2)}"
+        m = re.fullmatch(r"(?:ops::)?RangeInclusive::<Idx>::new\((\w+),(\w+)\)", t)
+        if m:
+            return f"{m.group(1)}..={m.group(2)}"
+        return estr(e)
+    for c in find_all(node, lambda z: z.get("k") == "mcall" and z.get("name") in ("insert", "extend")):
+        a = strip(c["args"][0]) if c.get("args") else None
+        if isinstance(a, dict) and a.get("k") == "array":
+            out += [norm(x) for x in a["es"]]
+        elif a is not None:
+            out.append(norm(a))
+    for c in find_all(node, lambda z: z.get("k") == "call" and (z.get("f", {}).get("res", {}).get("path") or "").endswith("::from_iter") and z.get("args")):
+        a = strip(c["args"][0])
+        if isinstance(a, dict) and a.get("k") == "array":
+            out += [norm(x) for x in a["es"]]
+    return out
+
+
 def trust_rules(fb, ctx):
     # default trust = {authorizer, authority}
     db = fb.body(O + "::TrustedOrigins::default")
@@ -264,7 +367,7 @@ def trust_rules(fb, ctx):
     ok = False
     if len(ifs) == 1:
         th = ifs[0]["then"]
-        inserted = sorted(estr(c["args"][0]) for c in find_all(th, lambda z: z.get("k") == "mcall" and z.get("name") in ("insert", "extend")))
+        inserted = sorted(added_items(th))
         starts = bool(find_all(th, lambda z: z.get("k") == "mcall" and z.get("name") == "clone" and is_local(strip(z["recv"]), p_default)))
         ok = starts and inserted in ([p_cur, "usize::MAX"], ["MAX", p_cur]) and bool(find_all(th, lambda z: z.get("k") == "ret"))
     ctx.check(ok, "TRUST", "no scope: inherited default + own block + authorizer, nothing else", "TRUST|empty", "the empty-scope branch of from_scopes must return default_origins + {current_block, usize::MAX}", where)
@@ -274,7 +377,7 @@ def trust_rules(fb, ctx):
     for m in sm[:1]:
         for arm in m["arms"]:
             for v in hirq.pat_variants(arm["pat"]):
-                adds = [estr(c["args"][0]) for c in find_all(arm["body"], lambda z: z.get("k") == "mcall" and z.get("name") in ("insert", "extend"))]
+                adds = added_items(arm["body"])
                 guards = [estr(i["cond"]) for i in find_all(arm["body"], lambda z: z.get("k") == "if")]
                 if arm.get("guard") is not None and adds:
                     guards.append(estr(arm["guard"]))        # `Scope::Previous if current != MAX => ..` is the same guard
@@ -283,12 +386,15 @@ def trust_rules(fb, ctx):
                 tab[name_] = (prev_[0] + adds, prev_[1] + guards)   # several arms for one variant (guarded + fallthrough) add up
     okA = tab.get("Authority") == (["0"], [])
     prev = tab.get("Previous", ([], []))
-    okP = len(prev[0]) == 1 and re.sub(r"\s", "", prev[0][0]) in (f"Range{{start:0,end:({p_cur}Add1)}}",) and len(prev[1]) == 1 and re.search(rf"\({p_cur} Ne (usize::)?MAX\)", prev[1][0]) is not None
+    okP = len(prev[0]) == 1 and prev[0][0] == f"0..={p_cur}" and len(prev[1]) == 1 and re.search(rf"\({p_cur} Ne (usize::)?MAX\)", prev[1][0]) is not None
     pk = tab.get("PublicKey", ([], []))
-    okK = len(pk[0]) == 1 and "iter" in pk[0][0] and p_map in " ".join(pk[1] + [estr(z) for z in find_all(sm[0] if sm else {}, lambda z: z.get("k") == "mcall" and z.get("name") == "get")]) and bool(find_all(sm[0] if sm else {}, lambda z: z.get("k") == "mcall" and z.get("name") == "get" and is_local(strip(z["recv"]), p_map)))
+    okK = len(pk[0]) == 1 and ("iter" in pk[0][0] or "as_slice" in pk[0][0] or "flatten" in pk[0][0]) and p_map in " ".join(pk[1] + [estr(z) for z in find_all(sm[0] if sm else {}, lambda z: z.get("k") == "mcall" and z.get("name") == "get")]) and bool(find_all(sm[0] if sm else {}, lambda z: z.get("k") == "mcall" and z.get("name") == "get" and is_local(strip(z["recv"]), p_map)))
     ctx.check(okA and okP and okK and set(tab) == {"Authority", "Previous", "PublicKey"}, "TRUST", "`authority` -> {0}; `previous` -> 0..=current (never for the authorizer); key -> blocks signed by that key", "TRUST|scopes", f"found {tab}", where)
     acc_ids = hirq.let_ids(fh["body"], lambda z: hirq.calls_path(strip(z), r"Origin as std::default::Default>::default$|Origin::default$|Origin::new$"))   # the accumulator, whatever it is called
     base = [estr(c["args"][0]) for c in find_all(fh["body"], lambda z: z.get("k") == "mcall" and z.get("name") == "insert" and hirq.is_lid(strip(z["recv"]), acc_ids))]
+    for st_ in (fh["body"].get("stmts") or []):      # `let mut origins = Origin::from_iter([usize::MAX, current_block]);` / `origins.extend([..])` at top level
+        if st_.get("k") in ("let", "semi") and not find_all(st_, lambda z: z.get("k") in ("loop", "if", "match") and z.get("src") != "TryDesugar"):
+            base += [x for x in added_items(st_) if x not in base]
     ctx.check(sorted(base)[:3].count(p_cur) >= 1 and any(x in ("usize::MAX", "MAX") for x in base), "TRUST", "explicit scopes always include own block and authorizer", "TRUST|explicit-base", f"unconditional inserts: {base}", where)
     # contains = superset test in the right direction
     cb = fb.body(O + "::TrustedOrigins::contains")
@@ -302,6 +408,9 @@ def trust_rules(fb, ctx):
     c2 = strip(hirq.tail(sh["body"]))
     sparams = [p.get("name") for p in sh["params"]]
     ok2 = isinstance(c2, dict) and c2.get("k") == "mcall" and c2.get("name") == "is_superset" and is_local(strip(strip(c2["recv"])["e"]), sparams[0]) and sparams[1] in estr(c2["args"][0])
+    if not ok2 and isinstance(c2, dict) and c2.get("k") == "mcall" and c2.get("name") == "is_subset":
+        # `other.inner.is_subset(&self.inner)` is the same relation with the roles written the other way round
+        ok2 = strip(c2["recv"]).get("k") == "field" and is_local(strip(strip(c2["recv"])["e"]), sparams[1]) and sparams[0] in estr(c2["args"][0])
     ctx.check(ok2, "VISIBLE", "Origin::is_superset keeps receiver/argument roles", "VISIBLE|is_superset", f"Origin::is_superset is `{estr(c2)}`", f"{sb['file']}:{sb['line']}")
     # the only way evaluation reads facts is the scope-filtered iterator
     ib = fb.body(D + "::FactSet::iterator")
